@@ -646,7 +646,7 @@ def read_lines_sha1(lines):
 readLinesSHA1 = function_deprecated_by(read_lines_sha1)
 
 
-_patch_re_raw = r'^(\d+)(?:,(\d+))?([acd])$'
+_patch_re_raw = r'^([0-9]+)(?:,([0-9]+))?([acd])$'
 _patch_re = re.compile(_patch_re_raw)  # type: Pattern[str]
 _patch_re_b = re.compile(_patch_re_raw.encode('UTF-8'))   # type: Pattern[bytes]
 
